@@ -496,4 +496,179 @@ theorem ssiPoles_ok (inp : SsiIn) (hs : inp.step = 1) (hA : inp.ordmax < inp.AA.
   simp only [List.length_map]
   exact hrec j (by omega)
 
+/-! ## the loop of the legacy `ssi.SSI` -/
+
+section legacy
+variable {K : Type} [Zero K] [Add K] [Mul K]
+
+omit [Add K] in
+/-- inside the recorded factors (`ii ≤ U1.shape[1]`, `ii ≤ len(S1)`) the pass forms the `ii`-column factor -/
+theorem legacyObs_ok (U : Mat K) (sq : List K) (ii : Nat) (hU : ii ≤ U.c) (hs : ii ≤ sq.length) :
+    legacyObs U sq ii = .ok (obsOf U (fun j => sq.getD j 0) ii) := by
+  unfold legacyObs
+  rw [Nat.min_eq_left hU, Nat.min_eq_left hs, if_neg (by simp)]
+
+/-- the loop over orders that all lie inside the recorded factors returns; position `j` of the lists
+    holds the pair of order `rest[j]`, built with the pseudo-inverse recorded in pass `k + j` -/
+theorem legacyLoop_spec (Pinv : Nat → Mat K) (U : Mat K) (sq : List K) (l : Nat) :
+    ∀ (rest : List Nat) (k : Nat), (∀ ii, ii ∈ rest → ii ≤ U.c ∧ ii ≤ sq.length) →
+      ∃ As Cs, legacyLoop Pinv U sq l rest k = .ok (As, Cs)
+        ∧ As.length = rest.length ∧ Cs.length = rest.length
+        ∧ ∀ j ii, rest[j]? = some ii →
+            As[j]? = some (legacyA (Pinv (k + j)) (obsOf U (fun j => sq.getD j 0) ii) l)
+            ∧ Cs[j]? = some (outC (obsOf U (fun j => sq.getD j 0) ii) l ii) := by
+  intro rest
+  induction rest with
+  | nil => intro k _; exact ⟨[], [], rfl, rfl, rfl, fun j ii h => by simp at h⟩
+  | cons i0 rest ih =>
+    intro k hall
+    obtain ⟨h0U, h0s⟩ := hall i0 (by simp)
+    obtain ⟨As, Cs, hok, hAl, hCl, hget⟩ := ih (k + 1) (fun ii hi => hall ii (by simp [hi]))
+    refine ⟨_, _, by unfold legacyLoop; rw [legacyObs_ok U sq i0 h0U h0s, hok], by simp [hAl],
+      by simp [hCl], ?_⟩
+    intro j ii hj
+    cases j with
+    | zero =>
+      simp only [List.getElem?_cons_zero, Option.some.injEq] at hj
+      subst hj
+      exact ⟨rfl, rfl⟩
+    | succ j =>
+      simp only [List.getElem?_cons_succ] at hj ⊢
+      have hk : k + (j + 1) = k + 1 + j := by omega
+      rw [hk]
+      exact hget j ii hj
+
+theorem scOrders_zero_get (ordmax step : Nat) (hs : 0 < step) (k : Nat) (hk : k * step ≤ ordmax) :
+    (scOrders 0 ordmax step)[k]? = some (k * step) := by
+  unfold scOrders
+  rw [List.getElem?_map, List.getElem?_range]
+  · simp
+  · apply (Nat.le_div_iff_mul_le hs).mpr
+    rw [Nat.succ_mul]
+    omega
+
+theorem scOrders_zero_length (ordmax step : Nat) (hs : 0 < step) :
+    (scOrders 0 ordmax step).length = ordmax / step + 1 := by
+  unfold scOrders
+  rw [List.length_map, List.length_range]
+  have : ordmax + 1 - 0 + step - 1 = ordmax + step := by omega
+  rw [this, Nat.add_div_right _ hs]
+
+/-- **what `legacyLists` returns** when `ordmax` lies inside the recorded factors: two lists of
+    `ordmax/step + 1` entries, position `k` holding `A`, `C` of order `k·step`. -/
+theorem legacyLists_spec (Pinv : Nat → Mat K) (U : Mat K) (sq : List K) (l ordmax step : Nat)
+    (hs : 0 < step) (hU : ordmax ≤ U.c) (hq : ordmax ≤ sq.length) :
+    ∃ As Cs, legacyLists Pinv U sq l ordmax step = .ok (As, Cs)
+      ∧ As.length = ordmax / step + 1 ∧ Cs.length = ordmax / step + 1
+      ∧ ∀ k, k * step ≤ ordmax →
+          As[k]? = some (legacyA (Pinv k) (obsOf U (fun j => sq.getD j 0) (k * step)) l)
+          ∧ Cs[k]? = some (outC (obsOf U (fun j => sq.getD j 0) (k * step)) l (k * step)) := by
+  obtain ⟨As, Cs, hok, hAl, hCl, hget⟩ := legacyLoop_spec Pinv U sq l (scOrders 0 ordmax step) 0 (by
+    intro ii hi
+    obtain ⟨k, hk1, hk2⟩ := (mem_scOrders 0 ordmax step hs ii).mp hi
+    omega)
+  refine ⟨As, Cs, hok, by rw [hAl, scOrders_zero_length ordmax step hs],
+    by rw [hCl, scOrders_zero_length ordmax step hs], ?_⟩
+  intro k hk
+  have := hget k (k * step) (scOrders_zero_get ordmax step hs k hk)
+  rwa [Nat.zero_add] at this
+
+end legacy
+
+/-! ## `step ≠ 1`: the order lists are indexed by ORDER instead of by position -/
+
+/-- the last order the loop of `SSI_poles` visits lies beyond the end of a list with one entry per
+    multiple of `step` as soon as `step ≥ 2` and `ordmax > step` -/
+theorem last_order_beyond (ordmax step : Nat) (hs : 2 ≤ step) (ho : step < ordmax) :
+    1 + (ordmax - 1) / step * step ≤ ordmax ∧ ordmax / step + 1 ≤ 1 + (ordmax - 1) / step * step := by
+  have h1 : (ordmax - 1) / step * step ≤ ordmax - 1 := Nat.div_mul_le_self _ _
+  have ha : 1 ≤ (ordmax - 1) / step := (Nat.le_div_iff_mul_le (by omega)).mpr (by omega)
+  have h2 : ordmax / step < (ordmax - 1) / step + 2 := by
+    apply (Nat.div_lt_iff_lt_mul (by omega)).mpr
+    have := Nat.lt_mul_div_succ (ordmax - 1) (show 0 < step by omega)
+    have h3 : ((ordmax - 1) / step + 2) * step = step * ((ordmax - 1) / step + 1) + step := by
+      rw [Nat.mul_comm]; simp [Nat.mul_add]; omega
+    omega
+  have h4 : (ordmax - 1) / step * 2 ≤ (ordmax - 1) / step * step := Nat.mul_le_mul_left _ hs
+  omega
+
+/-- **`SSI_poles` cannot return for `step ≥ 2`, `ordmax > step`** on lists with one entry per visited
+    order of the list-building loops (`range(0, ordmax + 1, step)`: `ordmax/step + 1` entries, as
+    `fastLists` / `legacyLists` build them): the model returns no tables, whatever the records. -/
+theorem ssiPoles_step_never_ok (inp : SsiIn) (hs : 2 ≤ inp.step) (ho : inp.step < inp.ordmax)
+    (hlen : inp.AA.length ≤ inp.ordmax / inp.step + 1 ∨ inp.CC.length ≤ inp.ordmax / inp.step + 1)
+    (T : SsiTables) : ssiPoles inp ≠ .ok T := by
+  intro h
+  obtain ⟨_, _, _, _, hpass, _⟩ := ssiPoles_spec inp T h
+  obtain ⟨h1, h2⟩ := last_order_beyond inp.ordmax inp.step hs ho
+  obtain ⟨A, C, hA, hC, _⟩ := hpass ((inp.ordmax - 1) / inp.step) h1
+  have hA' := (List.getElem?_eq_some_iff.mp hA).1
+  have hC' := (List.getElem?_eq_some_iff.mp hC).1
+  rcases hlen with hlen | hlen <;> omega
+
+/-- a loop over orders one of which lies beyond the end of `AA` ends in `IndexError`, provided the passes
+    before it succeed (well-formed entries below the end of the lists) -/
+theorem ssiLoop_indexError (inp : SsiIn) (w nch : Nat) (hw : inp.AA.length ≤ w) :
+    ∀ (rest : List Nat) (k : Nat) (T : SsiTables), T.fn.c = w → T.fn.r = inp.ordmax → T.phi.d = nch →
+      (∀ j ii, rest[j]? = some ii → ii < inp.AA.length →
+        ∃ C, inp.CC[ii]? = some C ∧ C.r = nch ∧ (passOut inp (k + j) C).fn.length ≤ inp.ordmax) →
+      (∃ ii, ii ∈ rest ∧ inp.AA.length ≤ ii) →
+      ssiLoop inp rest k T = .error "IndexError" := by
+  intro rest
+  induction rest with
+  | nil => intro k T _ _ _ _ hex; obtain ⟨ii, hi, _⟩ := hex; simp at hi
+  | cons i0 rest ih =>
+    intro k T hwT hr hd hall hex
+    by_cases h0 : i0 < inp.AA.length
+    · obtain ⟨C, hC, hCr, hlen⟩ := hall 0 i0 rfl h0
+      rw [Nat.add_zero] at hlen
+      have hstep : ∃ T1, ssiStep inp T k i0 = .ok T1 := by
+        unfold ssiStep
+        rw [List.getElem?_eq_getElem h0, hC]
+        simp only []
+        rw [if_neg (by omega), if_neg (by unfold passOut at hlen; omega), if_neg (by rw [hCr, hd]; simp)]
+        exact ⟨_, rfl⟩
+      obtain ⟨T1, hT1⟩ := hstep
+      obtain ⟨hsh, _, _⟩ := ssiStep_spec hT1
+      unfold ssiLoop
+      rw [hT1]
+      apply ih (k + 1) T1 (by rw [hsh.fnc]; exact hwT) (by rw [hsh.fnr]; exact hr)
+        (by rw [hsh.phid]; exact hd)
+      · intro j ii hj hii
+        have := hall (j + 1) ii (by simpa using hj) hii
+        have hk : k + 1 + j = k + (j + 1) := by omega
+        rw [hk]; exact this
+      · obtain ⟨ii, hi, hge⟩ := hex
+        rcases List.mem_cons.mp hi with rfl | hi'
+        · omega
+        · exact ⟨ii, hi', hge⟩
+    · unfold ssiLoop ssiStep
+      rw [List.getElem?_eq_none (by omega)]
+
+/-- **the exception is `IndexError`, raised at `A = AA[ii]`**: `step ≥ 2`, `ordmax > step`, lists of
+    `ordmax/step + 1` entries (what `SSI_fast` / `SSI` return for the same `step`), every `C` with the row
+    count of `CC[0]`, no recorded eigen-decomposition with more than `ordmax` eigenvalues. -/
+theorem ssiPoles_step_indexError (inp : SsiIn) (hs : 2 ≤ inp.step) (ho : inp.step < inp.ordmax)
+    (hA : inp.AA.length = inp.ordmax / inp.step + 1) (hC : inp.CC.length = inp.ordmax / inp.step + 1)
+    (hr : ∀ ii, (h : ii < inp.CC.length) →
+      (inp.CC[ii]).r = (inp.CC[0]'(by rw [hC]; exact Nat.succ_pos _)).r)
+    (hrec : ∀ k, (inp.recs.getD k EigRec.empty).absc.length ≤ inp.ordmax) :
+    ssiPoles inp = .error "IndexError" := by
+  have hpos : 0 < inp.CC.length := by rw [hC]; exact Nat.succ_pos _
+  unfold ssiPoles
+  have h0 : inp.CC[0]? = some (inp.CC[0]'hpos) := List.getElem?_eq_getElem hpos
+  rw [h0]
+  simp only []
+  rw [if_neg (by omega)]
+  apply ssiLoop_indexError inp (inp.ordmax / inp.step + 1) (inp.CC[0]'hpos).r (by omega) _ 0 _
+    rfl rfl rfl
+  · intro j ii _ hii
+    refine ⟨inp.CC[ii]'(by omega), List.getElem?_eq_getElem (by omega), hr ii (by omega), ?_⟩
+    unfold passOut ac2mp
+    simp only [List.length_map]
+    exact hrec _
+  · obtain ⟨h1, h2⟩ := last_order_beyond inp.ordmax inp.step hs ho
+    refine ⟨1 + (inp.ordmax - 1) / inp.step * inp.step, ?_, by omega⟩
+    exact List.mem_of_getElem? (ssiOrders_get inp.ordmax inp.step (by omega) _ h1)
+
 end PV.Poles
